@@ -3,6 +3,8 @@
 package client
 
 import (
+	"strings"
+
 	"github.com/aws/aws-sdk-go-v2/aws"
 	"github.com/aws/aws-sdk-go-v2/service/dynamodb"
 	"github.com/aws/aws-sdk-go-v2/service/dynamodb/types"
@@ -177,7 +179,36 @@ func VerifC03Step() {
 	for step := 0; step < k; step++ {
 		key := vKey{p: nd.StringN("op.p", 1)}
 		old, _ := m.get(key)
-		switch nd.Choice("op", 5) {
+		nops := 6
+		if onKey {
+			nops = 5 // g is no index key attribute there: no ill-typed index key to be had
+		}
+		switch nd.Choice("op", nops) {
+		case 5: // an UpdateItem that is refused for an ill-typed index key while it also changes or drops the
+			// item's other index key attribute / another attribute: the table and the index stay as they were
+			nd.Reach("refused-update")
+			expr := "SET g = :n, w = :x"
+			if idxRange {
+				expr = []string{"SET g = :n REMOVE h", "SET h = :x, g = :n", "REMOVE g SET h = :n"}[nd.Choice("op.refused", 3)]
+			}
+			vals := vItem{":n": vN("1")}
+			if strings.Contains(expr, ":x") {
+				vals[":x"] = vS(nd.StringN("op.x", 1))
+			}
+			_, err := c.UpdateItem(vCtx, &dynamodb.UpdateItemInput{TableName: aws.String(vTbl), Key: key.item(false),
+				UpdateExpression: aws.String(expr), ExpressionAttributeValues: vals})
+			if err == nil {
+				// where the item ends up outside the index (it lacks the other index key attribute) the ill-typed
+				// value may be let through; the statement says nothing on that, and the S-typed model ends here
+				nd.Reach("end")
+				return
+			}
+			got, gerr := vGet(c, key.item(false))
+			if oldAttrs, existed := m.get(key); existed {
+				nd.Assert(gerr == nil && vSameItem(got, m.full(key, oldAttrs)), "C03-refused-update-leaves-the-item")
+			} else {
+				nd.Assert(gerr == nil && len(got) == 0, "C03-refused-update-creates-nothing")
+			}
 		case 0: // overwrite / insert with any index-key situation
 			nd.Reach("put")
 			attrs := vC03Attrs("op", idxRange)
@@ -328,6 +359,8 @@ func VerifC03Local() {
 				nd.Assert(aws.ToString(l.IndexName) == "lsi" && len(l.KeySchema) == 2 &&
 					aws.ToString(l.KeySchema[0].AttributeName) == "p" && l.KeySchema[0].KeyType == types.KeyTypeHash &&
 					aws.ToString(l.KeySchema[1].AttributeName) == "g" && l.KeySchema[1].KeyType == types.KeyTypeRange, id+"-local-index-description")
+				// the per-index item count: the number of items that carry the index's key attributes
+				nd.Assert(l.ItemCount != nil && int(*l.ItemCount) == want, id+"-local-index-item-count")
 			}
 		}
 		vInvariant(c, id)
